@@ -126,7 +126,13 @@ func VerifC01Apply() {
 		rt.Check(len(names) == 1 && names[0] == "0000000000000028-0000000000000028.ltx", "C06: rejected file leaves the transaction log unchanged")
 		rt.Check(len(w.exits) == 0, "rejection is not fatal")
 		if rt.Symbolic() {
-			rt.Check(len(rt.FSLog) == 0, "C06: rejection happens before any file-system mutation")
+			muts := 0
+			for _, op := range rt.FSLog {
+				if op.Op != "sync" {
+					muts++
+				}
+			}
+			rt.Check(muts == 0, "C06: rejection happens before any file-system mutation")
 		}
 		return
 	}
